@@ -10,28 +10,33 @@ EXTENDS MinerRegistry, Json
 
 CONSTANTS Depth,     \* 0: state-space exploration; > 0: generate histories of this length
           MaxOps,    \* exploration: bound on the number of accepted transactions
-          Seeded     \* BOOLEAN: start from a registry holding proposer 1 (account 1) and validator 2 (account 2),
+          Seeded,    \* BOOLEAN: start from a registry holding proposer 1 (account 1) and validator 2 (account 2),
                      \* each applied in its own block, and generate only non-apply transactions after that
+          ColdSeed   \* BOOLEAN (with Seeded): proposer 1 was applied by account 1 FOR the cold account 4
 
 Ids == {1, 2}
-Accounts == {1, 2, 3}
+Accounts == {1, 2, 3}     \* sources: 1, 2 funded, 3 holds 2 tokens
+Cold == 4                 \* an address that never held anything (no state object): only ever NAMED as the account
+Targets == Accounts \cup {Cold}
 Start == 6000
 
 Alphabet ==
   { [kind |-> "Apply", id |-> i, type |-> t, stake |-> MinStake(t) + d, account |-> a, source |-> a] :
       i \in Ids, t \in {0, 1}, d \in {-1, 0, 1}, a \in Accounts } \cup
+  { [kind |-> "Apply", id |-> i, type |-> t, stake |-> MinStake(t) + d, account |-> Cold, source |-> s] :
+      i \in Ids, t \in {0, 1}, d \in {0, 1}, s \in {1, 2} } \cup
   { [kind |-> "Add", id |-> i, type |-> 0, stake |-> d, account |-> 0, source |-> s] :
       i \in Ids, d \in {0, 1, 200, 2000}, s \in {1, 2} } \cup
   { [kind |-> "Refund", id |-> i, type |-> 0, stake |-> m, account |-> 0, source |-> s] :
       i \in Ids, m \in {1, 400, -1, 5000}, s \in Accounts } \cup
   { [kind |-> "Change", id |-> i, type |-> 0, stake |-> 0, account |-> a, source |-> s] :
-      i \in Ids, a \in Accounts, s \in Accounts }
+      i \in Ids, a \in Targets, s \in Accounts }
 
 VARIABLES R, bal, escrow, acct, hist, nOps
 vars == <<R, bal, escrow, acct, hist, nOps>>
 (* acct: per id the running applied + added - refunded of accepted transactions *)
 
-SeedTx1 == [kind |-> "Apply", id |-> 1, type |-> 1, stake |-> 2000, account |-> 1, source |-> 1]
+SeedTx1 == [kind |-> "Apply", id |-> 1, type |-> 1, stake |-> 2000, account |-> IF ColdSeed THEN Cold ELSE 1, source |-> 1]
 SeedTx2 == [kind |-> "Apply", id |-> 2, type |-> 0, stake |-> 401, account |-> 2, source |-> 2]
 Init == /\ R = IF Seeded THEN Post(Post([i \in Ids |-> Absent], SeedTx1), SeedTx2) ELSE [i \in Ids |-> Absent]
         /\ bal = IF Seeded THEN [a \in Accounts |-> IF a = 1 THEN Start - 2000 ELSE IF a = 2 THEN Start - 401 ELSE Start]
